@@ -51,7 +51,7 @@ def engine_sources(sub):
 def targets_for(flavour):
     t = {}
     if flavour == "asan":
-        t["vdrive"] = [f"{ENG}/main_rc.cpp"] + engine_sources("props")
+        t["vdrive"] = [f"{ENG}/main_rc.cpp"] + engine_sources(os.environ.get("VERIF_PROPS_SUBDIR", "props"))   # VERIF_PROPS_SUBDIR: developer aid, build a driver with one work-in-progress property only
         t["tasgrid"] = TASGRID
     elif flavour == "fuzz":
         t["vfuzz"] = [f"{ENG}/main_fuzz.cpp"] + engine_sources("props")
